@@ -258,6 +258,54 @@ func (t *translator) innerRange(x *ast.RangeStmt, ev *env, cont func(*env) strin
 		"\n | (Panicked " + pv + ", w) => (Panicked " + pv + ", w)\n | (OutOfFuel, w) => (OutOfFuel, w)\n end)"
 }
 
+// switch { case c1: A  case c2: B  default: C }  is  if c1 { A } else if c2 { B } else { C }
+// (no tag, no init, no fallthrough, no break inside: Go's break would leave the switch)
+func (t *translator) switchAsIf(x *ast.SwitchStmt) ast.Stmt {
+	if x.Init != nil || x.Tag != nil {
+		unsup(x, "switch with an init statement or a tag")
+	}
+	var clauses []*ast.CaseClause
+	var deflt *ast.CaseClause
+	for _, st := range x.Body.List {
+		cc := st.(*ast.CaseClause)
+		ast.Inspect(cc, func(n ast.Node) bool {
+			switch b := n.(type) {
+			case *ast.BranchStmt:
+				if b.Tok == token.BREAK || b.Tok == token.FALLTHROUGH {
+					unsup(b, "%s inside a switch", b.Tok)
+				}
+			case *ast.ForStmt, *ast.RangeStmt, *ast.FuncLit:
+				return false
+			}
+			return true
+		})
+		if cc.List == nil {
+			deflt = cc
+			continue
+		}
+		clauses = append(clauses, cc)
+	}
+	if deflt != nil && len(x.Body.List) > 0 && x.Body.List[len(x.Body.List)-1] != ast.Stmt(deflt) {
+		unsup(deflt, "default clause that is not the last one")
+	}
+	var els ast.Stmt
+	if deflt != nil {
+		els = &ast.BlockStmt{List: deflt.Body}
+	}
+	for i := len(clauses) - 1; i >= 0; i-- {
+		cc := clauses[i]
+		cond := cc.List[0]
+		for _, c := range cc.List[1:] {
+			cond = &ast.BinaryExpr{X: cond, Op: token.LOR, Y: c, OpPos: c.Pos()}
+		}
+		els = &ast.IfStmt{If: cc.Pos(), Cond: cond, Body: &ast.BlockStmt{List: cc.Body}, Else: els}
+	}
+	if els == nil {
+		return &ast.EmptyStmt{}
+	}
+	return els
+}
+
 func init() {
 	loc := func(get, set, typ string) recField { return recField{"MapPrims." + get, "MapPrims." + set, typ} }
 	areas["mapmatch"] = &area{
@@ -284,7 +332,6 @@ func init() {
 			{file: "internal/mapper/match.go", name: "matchType"},
 			{file: "internal/mapper/match.go", name: "canNameMatch"},
 			{file: "internal/mapper/match.go", name: "Generator.makeTypeMatch"},
-			{file: "internal/mapper/mismatch.go", name: "Generator.makeFuncMap"},
 		},
 		types: map[string]string{
 			"bool": "bool", "string": "string", "int": "Z",
